@@ -11,7 +11,7 @@ from pv import shim
 from pv import tlc
 
 TESTS_WITH_REF = ('Frequency', 'BlockFrequency', 'Runs', 'LongestRuns', 'Serial', 'ApproximateEntropy', 'RandomWalk', 'NonOverlappingTemplateMatching',
-                  'LinearComplexityScatter', 'LinearComplexity')
+                  'LinearComplexityScatter', 'LinearComplexity', 'BinaryMatrixRank', 'Spectral', 'OverlappingTemplateMatching', 'Universal')
 
 
 def bits_of(v, n):
@@ -105,6 +105,45 @@ def _bm(seq):
   return L
 
 
+# SP 800-22 2.9.7: smallest n for each block length L
+UNIVERSAL_MIN_N = {6: 387840, 7: 904960, 8: 2068480, 9: 4654080, 10: 10342400, 11: 22753280, 12: 49643520, 13: 107560960, 14: 231669760,
+                   15: 496435200, 16: 1059061760}
+
+
+def _gf2_rank(rows):
+  rows = list(rows)
+  rank = 0
+  while rows:
+    piv = rows.pop()
+    if piv:
+      rank += 1
+      low = piv & -piv
+      rows = [x ^ piv if x & low else x for x in rows]
+  return rank
+
+
+_OPI = {}
+
+
+def _overlapping_pi(M, m, K):
+  """P(number of (overlapping) all-ones windows of length m in M random bits = 0..K-1, >= K), exact."""
+  if (M, m, K) not in _OPI:
+    # state: (current run of ones capped at m, count capped at K) -> number of strings
+    cur = {(0, 0): 1}
+    for _ in range(M):
+      nxt = collections.defaultdict(int)
+      for (run, cnt), ways in cur.items():
+        nxt[(0, cnt)] += ways
+        r2 = min(m, run + 1)
+        nxt[(r2, min(K, cnt + 1) if r2 == m else cnt)] += ways
+      cur = nxt
+    tot = [0] * (K + 1)
+    for (run, cnt), ways in cur.items():
+      tot[cnt] += ways
+    _OPI[(M, m, K)] = [Fraction(t, 2 ** M) for t in tot]
+  return _OPI[(M, m, K)]
+
+
 def ref_pvalues(test, b, par=None):
   """Reference p-values from straight-line transcriptions of SP 800-22 (with the documented deviations); returns dict name->p or None."""
   n = len(b)
@@ -160,6 +199,106 @@ def ref_pvalues(test, b, par=None):
       c = collections.Counter(tuple(b[(i + j) % n] for j in range(m)) for i in range(n))
       return sum(v / n * math.log(v / n) for v in c.values())
     return {'m=%d' % m: igamc(2 ** (m - 1), (2 * n * (math.log(2) - (phi(m) - phi(m + 1)))) / 2) for m in range(2, m_max + 1)}
+  if test == 'BinaryMatrixRank':
+    # SP 800-22 2.5 with the documented deviation: the exact rank distribution instead of the asymptotic constants
+    r_, c_, k_ = par if isinstance(par, (list, tuple)) else (32, 32, 3)
+    if r_ > c_ or n < r_ * c_:
+      return None
+    rows = [val(b[i * c_:(i + 1) * c_]) for i in range(n // c_)]
+    N = len(rows) // r_
+    v = [0] * (k_ + 1)
+    for i in range(N):
+      v[min(k_, r_ - _gf2_rank(rows[i * r_:(i + 1) * r_]))] += 1
+    def rank_prob(rho):
+      pr = Fraction(1)
+      for i in range(rho):
+        pr *= Fraction((2 ** r_ - 2 ** i) * (2 ** c_ - 2 ** i), (2 ** rho - 2 ** i))
+      return pr / 2 ** (r_ * c_)
+    pi = [rank_prob(r_ - j) for j in range(k_)]
+    pi.append(1 - sum(pi))
+    if any(x <= 0 for x in pi):
+      return None
+    chi = sum((v[i] - N * pi[i]) ** 2 / (N * pi[i]) for i in range(k_ + 1))
+    return {'result': igamc(k_ / 2, float(chi) / 2)}
+  if test == 'Spectral':
+    # SP 800-22 2.6: T = sqrt(ln(1/0.05) n), N0 = 0.95 n/2, N1 = #{|DFT_j| < T, j < n/2}, d = (N1 - N0) / sqrt(n 0.95 0.05 / 4)
+    import numpy
+    if n < 2 or n > 2 ** 21:
+      return None
+    x = numpy.array([2 * t - 1 for t in b], dtype=float)
+    mags = numpy.abs(numpy.fft.fft(x))[:n // 2]
+    T = math.sqrt(math.log(1 / 0.05) * n)
+    lo, hi = int(numpy.count_nonzero(mags < T * (1 - 1e-9))), int(numpy.count_nonzero(mags < T * (1 + 1e-9)))
+    out = []
+    for n1 in range(lo, hi + 1):
+      d = (n1 - 0.95 * (n // 2)) / math.sqrt(n * 0.95 * 0.05 / 4)
+      out.append(erfc(abs(d) / math.sqrt(2)))
+    return {'result': out}         # a magnitude within rounding of the threshold may fall on either side
+  if test == 'OverlappingTemplateMatching':
+    # SP 800-22 2.8 with the documented deviation: exact class probabilities (here by dynamic programming over run length x count)
+    m_, M = par if isinstance(par, (list, tuple)) else (9, 2 ** 10 + 8)
+    N = n // M
+    if N < 1 or M < m_:
+      return None
+    K = 5
+    v = [0] * (K + 1)
+    for i in range(N):
+      blk = b[i * M:(i + 1) * M]
+      cnt = sum(1 for j in range(M - m_ + 1) if all(blk[j:j + m_]))
+      v[min(K, cnt)] += 1
+    pi = _overlapping_pi(M, m_, K)
+    chi = sum((v[i] - N * pi[i]) ** 2 / (N * pi[i]) for i in range(K + 1))
+    return {'result': igamc(K / 2, float(chi) / 2)}
+  if test == 'Universal':
+    # SP 800-22 2.9 (table of expected value / variance per block length L, Q = 10 2^L initialisation blocks)
+    tab = {6: (5.2177052, 2.954), 7: (6.1962507, 3.125), 8: (7.1836656, 3.238), 9: (8.1764248, 3.311), 10: (9.1723243, 3.356)}
+    Ls = [L for L, mn in UNIVERSAL_MIN_N.items() if n >= mn]
+    if not Ls or max(Ls) not in tab:
+      return None
+    L = max(Ls)
+    mu, var = tab[L]
+    Q = 10 * 2 ** L
+    blocks = [val(b[i * L:(i + 1) * L]) for i in range(n // L)]
+    K = len(blocks) - Q
+    last = {}
+    for i in range(Q):
+      last[blocks[i]] = i
+    tot = 0.0
+    for i in range(Q, Q + K):
+      tot += math.log2(i - last.get(blocks[i], -1))
+      last[blocks[i]] = i
+    fn = tot / K
+    c = 0.7 - 0.8 / L + (4 + 32 / L) * K ** (-3 / L) / 15
+    sigma = c * math.sqrt(var / K)
+    return {'result': erfc(abs(fn - mu) / (math.sqrt(2) * sigma))}
+  if test == 'NonOverlappingTemplateMatching':
+    # SP 800-22 2.7: eight blocks, W_j = occurrences of the template in block j, mu = (M - m + 1) / 2^m,
+    # sigma^2 = M (1/2^m - (2m - 1) / 2^2m), chi^2 = sum (W_j - mu)^2 / sigma^2, p = igamc(N / 2, chi^2 / 2)
+    N = 8
+    M = n // N
+    if M < 4 or n > 300000:
+      return None
+    m_ = 2 if M < 64 else 3 if M < 256 else 4 if M < 1024 else 5 if M < 2048 else 6 if M < 4096 else 7 if M < 8192 else 8 if M < 16384 else 9 if M < 32768 else 10
+    def aperiodic(t):
+      return all((t >> (m_ - i)) != (t & ((1 << i) - 1)) for i in range(1, m_))
+    cnts = []
+    for j in range(N):
+      blk = b[j * M:(j + 1) * M]
+      c_ = collections.Counter()
+      w = 0
+      for i, bit in enumerate(blk):          # window value: earlier element = less significant bit (util.FrequencyCount)
+        w = (w >> 1) | (bit << (m_ - 1))
+        if i >= m_ - 1:
+          c_[w] += 1
+      cnts.append(c_)
+    mu = (M - m_ + 1) / 2 ** m_
+    var = M * (1 / 2 ** m_ - (2 * m_ - 1) / 2 ** (2 * m_))
+    out = {}
+    for t in range(2 ** m_):
+      if aperiodic(t):
+        chi = sum((c_[t] - mu) ** 2 / var for c_ in cnts)
+        out["template '%s'" % format(t, '0%db' % m_)] = igamc(N / 2, chi / 2)
+    return out
   if test == 'LinearComplexity':
     # SP 800-22 3.10 with the exact seven-class distribution, plus the documented "extreme values" p-value: the probability of
     # needing q or more coin tosses for N heads, q = sum of -log2 P(linear complexity of the block), P from the exact census
@@ -338,22 +477,24 @@ def stat_record(ns, sid, test, b, par=0, with_ref=True):
     st = int_stats(test, b)
     if test == 'LinearComplexityScatter':
       st = {'sizes': [len(b[i::par]) for i in range(par)]}
+    if test == 'Universal' and n >= 387840:
+      st = {'refL': max(L for L, mn in UNIVERSAL_MIN_N.items() if n >= mn)}      # the ladder the reference used (checked against NistStats.tla)
     if with_ref and test in TESTS_WITH_REF and in_domain(test, b) and not nan and not (test in ('Serial', 'ApproximateEntropy') and n > 12000):
       mm = par
       if test == 'Serial' and not par:
         mm = max(2, min(22, n.bit_length() - 4))
       if test == 'ApproximateEntropy' and not par:
         mm = max(2, n.bit_length() - 7) if n < 2 ** 16 else n.bit_length() - 8 if n < 2 ** 20 else n.bit_length() - 9
-      if test == 'NonOverlappingTemplateMatching':
-        ref = None
-      else:
-        ref = ref_pvalues(test, b, mm)
+      ref = ref_pvalues(test, b, par if test in ('BinaryMatrixRank', 'OverlappingTemplateMatching') else mm)
       if ref is not None:
         ref = {k: x for k, x in ref.items() if x is not None}
         if not set(ref) <= set(pv):
           ok = False
         for k in ref:
-          if k in pv and abs(pv[k] - ref[k]) > max(1e-9, 1e-6 * abs(ref[k])):
+          alts = ref[k] if isinstance(ref[k], list) else [ref[k]]
+          # the square 32 x 32 rank distribution is embedded to eight printed digits: relative 2e-5 on the p-value
+          rel = 2e-5 if test == 'BinaryMatrixRank' else 1e-6
+          if k in pv and not any(abs(pv[k] - x) <= max(1e-9, rel * abs(x)) for x in alts):
             ok = False
     rng_ok = (not nan) and all(-1e-9 <= x <= 1 + 1e-9 for x in pv.values())
     if not in_domain(test, b):
@@ -604,6 +745,9 @@ def run(ctx):
           65535, 65536, 2 ** 16 + 1]
   if not ctx.quick:
     grid += [749999, 750000, 387839, 387840, 2 ** 20 - 1, 2 ** 20, 102399, 102400, 204800]
+  # Universal on both sides of the first block-length thresholds of SP 800-22 2.9.7
+  for n in ([387840, 904959, 904960] if ctx.quick else [387840, 904959, 904960, 2068479, 2068480, 1000000]):
+    jobs.append(('stat', ('u-Universal-%d-random' % n, 'Universal', strings(rng, n)['random'], 0, True)))
   for n in grid:
     for cname, b in strings(rng, n).items():
       if ctx.quick and cname in ('periodic', 'earlyzero') and n > 5000:
